@@ -1578,15 +1578,33 @@ class Interp:
         saved = self.recording
         self.recording = False
         it = 0
+        snap_key = ("snap", ctx.fid, h)
+
+        def with_snapshot(hd):
+            """the head values of this iteration stay visible (as a ghost cell)
+            so that inner loops can relate their cursors to them"""
+            s2 = hd.copy()
+            leaves = []
+            seen = set()
+            for name, aff in self.int_leaves(hd, keys=[k for k in hd.cells if k[0] == ctx.fid]):
+                if aff.is_const() or aff in seen or len(aff.t) > 2:
+                    continue
+                seen.add(aff)
+                leaves.append(IntV(aff, USIZE))
+                if len(leaves) >= 24:
+                    break
+            s2.cells[snap_key] = StructV(leaves)
+            return s2
         try:
             while True:
                 self.stats["loop_iters"] += 1
-                backs, _ = self.run_region(ctx, h, {h: [head.copy()]})
+                backs, _ = self.run_region(ctx, h, {h: [with_snapshot(head)]})
                 if not backs:
                     break
                 for b in backs:
                     for key in [k for k in b.cells if k[0] == ctx.fid and k[1] not in live]:
                         del b.cells[key]
+                    b.cells.pop(snap_key, None)
                     b.gc_heap()
                 new, changed = self.widen(head, backs, (ctx.fid, h), it)
                 if not changed:
@@ -1598,10 +1616,12 @@ class Interp:
                     break
         finally:
             self.recording = saved
-        backs, exits = self.run_region(ctx, h, {h: [head.copy()]})
+        backs, exits = self.run_region(ctx, h, {h: [with_snapshot(head)]})
         if self.recording:
             for hk in self.loop_hooks:
                 hk(self, ctx, h, head, backs, exits)
+        for _, s_ in exits:
+            s_.cells.pop(snap_key, None)
         return exits
 
     # -------------------------------------------------------------- joins --
@@ -1652,6 +1672,15 @@ class Interp:
         for new in news:
             cur, ch = self._widen1(cur, new, tag, it, plain)
             changed = changed or ch
+        if not changed:
+            # facts of the original state that did not survive (and are not implied by bounds)
+            fs = set(cur.facts)
+            for f in old.facts:
+                if f not in fs and cur.lower(f) < 0 and not cur.entails(f, 1):
+                    if DEBUG_JOIN:
+                        print("   [dropped fact %r it=%s]" % (f, it))
+                    changed = True
+                    break
         return cur, changed
 
     def _widen1(self, old, new, tag, it, plain):
@@ -1913,12 +1942,6 @@ class Interp:
                     kept.append(f)
                     keptset.add(f)
                     break
-        if len(kept) != len(old.facts) or any(f not in old.facts for f in kept):
-            # dropping or adding facts changes the state (adding only happens at
-            # the first introduction of a phi, which already set changed)
-            if set(kept) != set(old.facts):
-                if not all(f in kept for f in old.facts):
-                    changed[0] = True
         res.facts = kept
         res._fx = None
         res.gc()
